@@ -240,7 +240,10 @@ def check_gauss_counting(n, hist, res):
                 finally:
                     gb.hafnian_sample_state, gb.torontonian_sample_state = sh, st
                 mu_r, V_r = ref0.reduced(list(modes))
-                if "cov" not in rec or np.max(np.abs(rec["cov"] - V_r)) > 1e-8 or (rec["mean"] is not None and np.max(np.abs(rec["mean"] - mu_r)) > 1e-8) or (rec["mean"] is None and np.max(np.abs(mu_r)) > 1e-8):
+                if "cov" not in rec:
+                    res.stats["unrecognised_sampling_structure"] += 1  # the simulator did not call the samplers the harness owns
+                    continue
+                if np.max(np.abs(rec["cov"] - V_r)) > 1e-8 or (rec["mean"] is not None and np.max(np.abs(rec["mean"] - mu_r)) > 1e-8) or (rec["mean"] is None and np.max(np.abs(mu_r)) > 1e-8):
                     res.violation(f"C06|{which}|born-distribution|gaussian", f"{which} measurement of modes {list(modes)} of {htag(hist)}: the sampler was given a state that is not the reduced state of those modes", case)
                 elif np.array(val).shape != (2, k) or list(np.array(val)[0]) != [10 + j for j in range(k)]:
                     res.violation(f"C06|{which}|sample-routing|gaussian", f"{which} on modes {list(modes)}: sampler answered column j with 10+j, backend returned {np.array(val).tolist()}", case)
